@@ -569,7 +569,7 @@ pub fn gen_project(rng: &mut Rng, knobs: &ProjectKnobs) -> Project {
             path: join(&nested_dir, ".luaurc"),
             body: Body::Text("{ \"aliases\": { \"lib\": \"../dots.v1.2\" } }\n".to_owned()),
         });
-        let mut ensure = |sources: &mut Vec<SourceFile>, path: String, rng: &mut Rng| {
+        let ensure = |sources: &mut Vec<SourceFile>, path: String, rng: &mut Rng| {
             if !sources.iter().any(|s| s.path == path) {
                 sources.push(SourceFile {
                     path,
